@@ -112,3 +112,46 @@ SPEC_ENTRY = {'title': 'Command/response drivers encode requests per spec and ch
               ('C20_gpu_errors_nonvacuous', 'Proofs/GpuProofs.v', 'errors_nonvacuous', None),
               ('C20_gpu_backing_nonvacuous', 'Proofs/GpuProofs.v', 'backing_nonvacuous', None),
               ('C20_edid_nonvacuous', 'Proofs/GpuProofs.v', 'edid_nonvacuous', None)]}
+
+# ---- the monitors evaluated on the IMPLEMENTATION's observations, tied to the statements they stand for (Proofs/GpuMonProofs.v):
+# ---- "meaning" = what a true verdict implies, for any input list; "holds_of_model" = no false alarm on code that behaves like the model
+SPEC_ENTRY['imports'] += [m for m in ['Extract.QueueIO', 'Extract.GpuIO', 'Proofs.GpuMonProofs'] if m not in SPEC_ENTRY['imports']]
+SPEC_ENTRY['theorems'] += [
+  ('C20_gpu_monitor_2020_accepts_only_such_lines', 'Proofs/GpuMonProofs.v', 'mon_wire_decodes', 'every list monitor 2020 accepts is a line [cursor queue?; n; (len, writable)*n; m; expected command flat (m); k; bytes..] with consistent counts'),
+  ('C20_gpu_monitor_2020_meaning', 'Proofs/GpuMonProofs.v', 'mon_wire_meaning', "monitor 2020, a true verdict on such a line means: the first k device-readable bytes decode (decoder written from the VirtIO 1.2 field tables) to a command with flags = fence_id = ctx_id = ring_idx = padding = 0 whose type and fields are exactly the expected ones built from the caller's parameters (MOVE_CURSOR: the three unused fields not compared); the chain is readable elements followed by writable ones; the readable part has room for the request structure, the writable part for the response structure of that command (24 / 408 / 1056 bytes; none for cursor commands)"),
+  ('C20_gpu_monitor_2020_request_size_decoder', 'Proofs/GpuMonProofs.v', 'cmd_size_decoder', "the request size monitor 2020 asks room for is what the specification's decoder needs ..."),
+  ('C20_gpu_monitor_2020_request_size_driver', 'Proofs/GpuMonProofs.v', 'cmd_size_driver', "... and exactly the size of the driver's request structure"),
+  ('C20_gpu_monitor_2020_holds_of_model', 'Proofs/GpuMonProofs.v', 'mon_wire_holds_of_model', "every request of the model with u32 / u64 parameters, on either queue, whatever follows it in the send buffer, found in a readable-then-writable chain with room for request and response, passes monitor 2020 against the specification's reading of its parameters"),
+  ('C20_gpu_monitor_2021_meaning', 'Proofs/GpuMonProofs.v', 'mon_sequence_meaning', "monitor 2021, a true verdict on ANY list means: the list is [op; p1..p5; class] ++ requests [cursor?; n; bytes]*, names one of the six operations, every request decodes as a plain command, and the commands obey the sequence rule: exactly the specification's list for that operation in order and on their queues with result Ok and a non-zero new resource id, or - no list exists (4wh = 0 or >= 2^32, flush without scanout resource) - an error with nothing sent"),
+  ('C20_gpu_monitor_2021_rule_is_the_checker', 'Proofs/GpuMonProofs.v', 'seq_ok_rule', 'the sequence rule is exactly what the specification-side checker seq_ok computes'),
+  ('C20_gpu_monitor_2021_rule_change', 'Proofs/GpuMonProofs.v', 'sequence_rule_change', 'the rule for change_resolution spelled out: [set_scanout(0); detach(old); unref(old)]-if-a-resource-existed ++ [create_2d(rid, B8G8R8A8, w, h); attach_backing(rid, 1 entry (paddr, 4wh)); set_scanout((0,0,w,h), 0, rid)], rid <> 0'),
+  ('C20_gpu_monitor_2021_rule_flush', 'Proofs/GpuMonProofs.v', 'sequence_rule_flush', 'flush: transfer_to_host_2d(whole rect, offset 0, rid) then resource_flush(whole rect, rid); refused when nothing is on the scanout'),
+  ('C20_gpu_monitor_2021_rule_setup_cursor', 'Proofs/GpuMonProofs.v', 'sequence_rule_setup_cursor', 'setup_cursor: create 64x64, attach(paddr, 16384), transfer, UPDATE_CURSOR on the cursor queue with position and hot spot'),
+  ('C20_gpu_monitor_2021_rule_move_cursor', 'Proofs/GpuMonProofs.v', 'sequence_rule_move', 'move_cursor: one MOVE_CURSOR on the cursor queue with the position'),
+  ('C20_gpu_monitor_2021_holds_of_model', 'Proofs/GpuMonProofs.v', 'mon_sequence_of_events', 'whatever model operation ran: when the commands decoded from its events pass seq_ok, the line written from those events passes monitor 2021'),
+  ('C20_gpu_monitor_2021_holds_of_model_change', 'Proofs/GpuMonProofs.v', 'mon_sequence_holds_change', 'change_resolution(w, h), 0 < 4wh < 2^32, only success answers, from EVERY state'),
+  ('C20_gpu_monitor_2021_holds_of_model_flush', 'Proofs/GpuMonProofs.v', 'mon_sequence_holds_flush', None),
+  ('C20_gpu_monitor_2021_holds_of_model_flush_not_ready', 'Proofs/GpuMonProofs.v', 'mon_sequence_holds_flush_not_ready', None),
+  ('C20_gpu_monitor_2021_holds_of_model_setup_cursor', 'Proofs/GpuMonProofs.v', 'mon_sequence_holds_setup_cursor', None),
+  ('C20_gpu_monitor_2021_holds_of_model_move_cursor', 'Proofs/GpuMonProofs.v', 'mon_sequence_holds_move_cursor', None),
+  ('C20_gpu_monitor_2021_holds_of_model_resolution', 'Proofs/GpuMonProofs.v', 'mon_sequence_holds_resolution', None),
+  ('C20_gpu_monitor_2021_holds_of_model_get_edid', 'Proofs/GpuMonProofs.v', 'mon_sequence_holds_get_edid', None),
+  ('C20_gpu_monitor_2022_meaning', 'Proofs/GpuMonProofs.v', 'mon_errors_meaning', 'monitor 2022, a true verdict on ANY list means: the list is [class] ++ answered requests [cursor?; answered; response type; n; bytes]*, every request decodes to a command, and an answer that is not the expected success (failed transport call, or on the control queue any type other than the one the specification prescribes for that command) belongs to the LAST request and the result class is 1 (error)'),
+  ('C20_gpu_monitor_2022_rule_is_the_checker', 'Proofs/GpuMonProofs.v', 'resp_ok_rule', 'that rule is exactly what the specification-side checker resp_ok computes'),
+  ('C20_gpu_monitor_2022_holds_of_model', 'Proofs/GpuMonProofs.v', 'mon_errors_holds_of_model', 'every model operation that is `sound` (all public ones: the C20_gpu_errors_... theorems), from every state, on EVERY answer list: the line written from its requests and the answers it consumed passes monitor 2022'),
+  ('C20_gpu_monitor_2023_meaning', 'Proofs/GpuMonProofs.v', 'mon_backing_meaning', 'monitor 2023, a true verdict on ANY list means: the list is a sequence of [tag; a; b; c] resource / memory events and, replayed against the bookkeeping of a conforming device: every attach names an existing resource, lies inside one live DMA region and is at least 4wh long; every dealloc releases a live region inside which no resource is backed; every transfer is from a resource with backing'),
+  ('C20_gpu_monitor_2023_rule_is_the_checker', 'Proofs/GpuMonProofs.v', 'backing_ok_rule', 'that rule is exactly what the specification-side checker backing_ok computes'),
+  ('C20_gpu_monitor_2023_bookkeeping_from_history', 'Proofs/GpuMonProofs.v', 'brun_history', 'what the bookkeeping holds comes from earlier events: a live region was allocated at a non-zero address, a resource was created with that size, its backing was attached to it'),
+  ('C20_gpu_monitor_2023_holds_of_model', 'Proofs/GpuMonProofs.v', 'mon_backing_holds_of_model', 'over every error-free life of the model closed by Drop the event list passes monitor 2023'),
+  ('C20_gpu_monitor_2024_meaning', 'Proofs/GpuMonProofs.v', 'mon_resolution_meaning', 'monitor 2024: resolution() returned Ok with exactly width and height of pmodes[0]'),
+  ('C20_gpu_monitor_2024_accepts_only_such_lines', 'Proofs/GpuMonProofs.v', 'mon_resolution_decodes', None),
+  ('C20_gpu_monitor_2024_holds_of_model', 'Proofs/GpuMonProofs.v', 'mon_resolution_holds_of_model', None),
+  ('C20_gpu_monitor_2025_meaning', 'Proofs/GpuMonProofs.v', 'mon_edid_meaning', 'monitor 2025, a true verdict on ANY list means: the list is [size] ++ 1024 bytes ++ [class; w; h; n] ++ n pairs (++ ignored rest); preferred_resolution() is the E-EDID reading of detailed timing #1 or an error where there is none; standard_timings() is empty below 128 bytes, otherwise the same multiset as the used standard-timing slots, by decreasing pixel count, equal counts in slot order, at most 8'),
+  ('C20_gpu_monitor_2025_holds_of_model', 'Proofs/GpuMonProofs.v', 'mon_edid_holds_of_model', "for EVERY 1024-byte blob and every size the results of the model's Edid methods pass monitor 2025"),
+  ('C20_gpu_monitor_2026_meaning', 'Proofs/GpuMonProofs.v', 'mon_image_meaning', "monitor 2026 (monitor only): the device read all 16384 bytes of the caller's cursor image unchanged"),
+  ('C20_gpu_monitor_kinds', 'Proofs/GpuMonProofs.v', 'gpu_monitor_kinds', None),
+  ('C20_gpu_monitor_lines_nonvacuous', 'Proofs/GpuMonProofs.v', 'mon_lines_nonvacuous', 'concrete accepted and refused lines of monitors 2020 and 2023'),
+  ('C20_gpu_monitor_2022_rejects_cleanup_after_error', 'Proofs/GpuMonProofs.v', 'mon_errors_rejects_cleanup_after_an_error_answer', 'AUDIT: 2022 demands more than the property text (the unexpected answer must be the last request)'),
+  ('C20_gpu_monitor_2022_ignores_class_when_all_expected', 'Proofs/GpuMonProofs.v', 'mon_errors_ignores_the_class_when_all_answers_are_expected', 'AUDIT: with only expected answers 2022 does not look at the class'),
+  ('C20_gpu_monitor_2021_fixes_teardown_order', 'Proofs/GpuMonProofs.v', 'mon_sequence_fixes_the_teardown_order', 'AUDIT: 2021 fixes the order of the tear-down commands, which the property text does not name'),
+]
